@@ -8,6 +8,7 @@ mod k_vars;
 mod k_lex;
 mod k_damage;
 mod k_crash;
+mod k_anytext;
 mod k_val;
 mod k_hist;
 mod k_histf;
@@ -35,6 +36,7 @@ fn run_line(line: &str) -> String {
         "lex" => k_lex::run(&f[1..]),
         "damage" => k_damage::run(&f[1..]),
         "crash" => k_crash::run(&f[1..]),
+        "anytext" => k_anytext::run(&f[1..]),
         "stack" => k_crash::run_stack(&f[1..]),
         "valop" => k_val::run(&f[1..]),
         "valexpr" => k_val::run_expr(&f[1..]),
@@ -75,6 +77,7 @@ fn main() {
                     "lex" => k_lex::gen(&mut rng, tier, i, &mut stats),
                     "damage" => k_damage::gen(&mut rng, tier, i, &mut stats),
                     "crash" => k_crash::gen(&mut rng, tier, i, &mut stats),
+                    "anytext" => k_anytext::gen(&mut rng, tier, i, &mut stats),
                     "crashx" => k_crash::gen_exhaustive(i + offset),
                     "stack" => k_crash::gen_stack(i),
                     "valop" => k_val::gen(&mut rng, tier, i, &mut stats),
